@@ -49,6 +49,8 @@ pub enum ProgramRegistryError {
     TypeInfoDeclarationMismatch(ConcreteTypeId),
     #[error("Function `{func_id}`'s parameter type `{ty}` is not storable.")]
     FunctionWithUnstorableType { func_id: FunctionId, ty: ConcreteTypeId },
+    #[error("Function `{0}`'s parameter types do not match its signature.")]
+    FunctionParamsSignatureMismatch(FunctionId),
     #[error("Function `{0}` points to non existing entry point statement.")]
     FunctionNonExistingEntryPoint(FunctionId),
     #[error("#{0}: Libfunc invocation input count mismatch")]
@@ -155,6 +157,15 @@ impl<TType: GenericType, TLibfunc: GenericLibfunc> ProgramRegistry<TType, TLibfu
                         ty: ty.clone(),
                     }));
                 }
+            }
+            // The body of the function is typed by `params`, its callers by `signature`.
+            if !itertools::equal(
+                func.params.iter().map(|param| &param.ty),
+                func.signature.param_types.iter(),
+            ) {
+                return Err(Box::new(ProgramRegistryError::FunctionParamsSignatureMismatch(
+                    func.id.clone(),
+                )));
             }
             if func.entry_point.0 >= program.statements.len() {
                 return Err(Box::new(ProgramRegistryError::FunctionNonExistingEntryPoint(
